@@ -5,6 +5,7 @@ import (
 
 	"github.com/bytemare/secp256k1/verifharness/gen"
 	"github.com/bytemare/secp256k1/verifharness/pt"
+	"github.com/bytemare/secp256k1/verifharness/ref"
 	"pgregory.net/rapid"
 )
 
@@ -17,7 +18,7 @@ type caseC05 struct {
 	Self bool    `json:"self,omitempty"` // compare A with itself (same pointer)
 }
 
-var c05rels = []string{"same", "neg", "endo", "endo-neg", "unrelated", "vs-identity", "id-id", "self"}
+var c05rels = []string{"same", "neg", "endo", "endo-neg", "unrelated", "vs-identity", "id-id", "self", "line", "line"}
 
 func nonIdentityBase(t *rapid.T) pt.Base {
 	b := pt.BaseGen().Draw(t, "base")
@@ -43,6 +44,13 @@ var c05 = gen.Register(&gen.Check[caseC05]{
 		case "endo-neg":
 			b.Endo = (a.Endo + 1) % 3
 			b.Neg = !a.Neg
+		case "line":
+			// distinct points with y_Q - y_P = m (x_Q - x_P) for a small slope m: catches comparisons that combine the
+			// x and y differences (sum, difference, small linear combinations) instead of testing both
+			m := rapid.SampledFrom([]int{-1, 1, 2, -2, 3, -3}).Draw(t, "slope")
+			a = pt.Base{Kind: "line-p", X: gen.H(gen.Int(ref.P).Draw(t, "x")), Odd: rapid.Bool().Draw(t, "odd"), K: m}
+			b = a
+			b.Kind = "line-q"
 		case "unrelated":
 			b = pt.BaseGen().Draw(t, "b")
 		case "vs-identity":
@@ -70,6 +78,8 @@ var c05 = gen.Register(&gen.Check[caseC05]{
 			{A: pt.Spec{Base: g}, B: pt.Spec{Base: pt.Base{Kind: "g", Endo: 1}}, Rel: "endo"},
 			{A: pt.Spec{Base: g}, B: pt.Spec{Base: pt.Base{Kind: "g", Endo: 2}, Steps: []pt.Step{{Op: "dblsub"}}}, Rel: "endo"},
 			{A: pt.Spec{Base: g}, B: pt.Spec{Base: id}, Rel: "vs-identity"},
+			{A: pt.Spec{Base: pt.Base{Kind: "line-p", X: "01", K: -1}}, B: pt.Spec{Base: pt.Base{Kind: "line-q", X: "01", K: -1}}, Rel: "line"},
+			{A: pt.Spec{Base: pt.Base{Kind: "line-p", X: "01", K: 1}, Steps: []pt.Step{{Op: "dblsub"}}}, B: pt.Spec{Base: pt.Base{Kind: "line-q", X: "01", K: 1}}, Rel: "line"},
 			{A: pt.Spec{Base: id}, B: pt.Spec{Base: g, Steps: []pt.Step{{Op: "dblsub"}}}, Rel: "vs-identity"},
 			{A: pt.Spec{Base: id}, B: pt.Spec{Base: id, Steps: []pt.Step{{Op: "id:p-p", J: 1}}}, Rel: "id-id"},
 			{A: pt.Spec{Base: id, Steps: []pt.Step{{Op: "id:o-o"}}}, B: pt.Spec{Base: id, Steps: []pt.Step{{Op: "id:p-p", J: 2}}}, Rel: "id-id"},
@@ -77,7 +87,7 @@ var c05 = gen.Register(&gen.Check[caseC05]{
 			{A: pt.Spec{Base: g, Steps: []pt.Step{{Op: "dblsub"}}}, B: pt.Spec{Base: g, Steps: []pt.Step{{Op: "addsub", J: 2}}}, Rel: "same"},
 		}
 	},
-	Required: []string{"rel:same", "rel:neg", "rel:endo", "rel:vs-identity", "rel:id-id", "rel:unrelated", "equal", "unequal"},
+	Required: []string{"rel:line", "rel:same", "rel:neg", "rel:endo", "rel:vs-identity", "rel:id-id", "rel:unrelated", "equal", "unequal"},
 	Run: func(c caseC05, o *gen.Obs) error {
 		a, err := pt.Build(c.A)
 		if err != nil {
@@ -105,7 +115,7 @@ var c05 = gen.Register(&gen.Check[caseC05]{
 		o.ClassIf(shareX, "share-x")
 		o.ClassIf(shareY, "share-y")
 		diffRep := a.RawKnown && (a.X.Cmp(b.X) != 0 || a.Y.Cmp(b.Y) != 0 || a.Z.Cmp(b.Z) != 0)
-		o.NonTrivialIf(shareX || shareY || a.Model.Inf || b.Model.Inf || (want && diffRep) || len(c.A.Steps)+len(c.B.Steps) > 0)
+		o.NonTrivialIf(c.Rel == "line" || shareX || shareY || a.Model.Inf || b.Model.Inf || (want && diffRep) || len(c.A.Steps)+len(c.B.Steps) > 0)
 		wi := 0
 		if want {
 			wi = 1
